@@ -247,4 +247,19 @@ def variants(program):
                             ok = True
         return ok
     add('twin-root-page-literal', 'twin', literal_root)
+    def dict_ctor_copies(tree):
+        fun = find_func(tree, 'FormattedRst.__init__')
+        ok = False
+        for node in ast.walk(fun):
+            if isinstance(node, ast.Assign) and isinstance(
+                    node.value, ast.Call) and call_name(node.value) == \
+                    'copy' and txt(node.targets[0]) in (
+                        'self.tree_dict', 'self.text_dict'):
+                node.value = ast.Call(func=ast.Name(id='dict',
+                                                    ctx=ast.Load()),
+                                      args=[node.value.func.value],
+                                      keywords=[])
+                ok = True
+        return ok
+    add('twin-dictionaries-copied-with-dict', 'twin', dict_ctor_copies)
     return out
